@@ -15,6 +15,10 @@ import Nstd.Args.Model
     p <op> ...                              → p ok=<0|1> st=<running><out><err><in>      (one Process object)
          op = new | start <code> | open <mask> <code> | join | kill | close <mask> | running | read3 <mask>
     killtest <mask>                         → kill ok=1
+    env set <name> <value> | env get <name> <default> | env all
+                                            → e ok=<0|1> | e val=<hex> | e all=<name=value hex,... in Map order>
+         (the variables set through the API; the harness uses names starting with NVT_ and removes them at reset)
+  An inherited environment is shown as `env=inherit:<the API-set variables, sorted as strings>`.
 
   The harness prints the same prefix followed by ` | <what the kernel delivered>`; that part is
   judged by the Python reference only (the model stops at execvpe/pipe).
@@ -67,13 +71,19 @@ def parseEnv (t : String) : Option (List (Str × Str)) :=
       | _ => none)
     pure (kvs.foldl (fun m kv => mapInsert kv.1 kv.2 m) [])
 
-def showExec (e : Exec) : String :=
+def insertSorted (x : Str) : List Str → List Str
+  | [] => [x]
+  | y :: r => if lexLt x y then x :: y :: r else y :: insertSorted x r
+
+def hexList (l : List Str) : String := if l.isEmpty then "-" else ",".intercalate (l.map toHex)
+
+def showExec (pe : PEnv) (e : Exec) : String :=
   s!"x ok=1 pipes={e.pipes} argv={",".intercalate (e.argv.map toHex)} env=" ++
     (match e.env with
-     | none => "inherit"
+     | none => "inherit:" ++ hexList ((prepareEnv pe).foldl (fun acc x => insertSorted x acc) [])
      | some l => ",".intercalate (l.map toHex))
 
-def runOp (form : String) (streams : Nat) (env : List (Str × Str)) (ws : List Str) : Option String :=
+def runOp (pe : PEnv) (form : String) (streams : Nat) (env : List (Str × Str)) (ws : List Str) : Option String :=
   let isStart := form.startsWith "start"
   if isStart && streams != 0 then none
   else
@@ -90,9 +100,9 @@ def runOp (form : String) (streams : Nat) (env : List (Str × Str)) (ws : List S
     match r with
     | none => none
     | some none => some "FAULT"
-    | some (some e) => some (showExec e)
+    | some (some e) => some (showExec pe e)
 
-def stepLine' (ws : List String) : String :=
+def stepLine' (pe : PEnv) (ws : List String) : String :=
     match ws with
     | "args" :: o :: words =>
       match parseOpts o, words.mapM fromHex with
@@ -111,7 +121,7 @@ def stepLine' (ws : List String) : String :=
         | .fuel => "LOOP"
     | "run" :: form :: streams :: env :: words =>
       match streams.toNat?, parseEnv env, words.mapM fromHex with
-      | some s, some e, some wl => (runOp form s e wl).getD "bad-op"
+      | some s, some e, some wl => (runOp pe form s e wl).getD "bad-op"
       | _, _, _ => "bad-op"
     | ["io", streams, n, seed, code] =>
       match streams.toNat?, n.toNat?, seed.toNat?, code.toNat? with
@@ -143,15 +153,26 @@ def parsePOp : List String → Option POp
   | ["read3", m] => m.toNat?.map .read3
   | _ => none
 
-def stepLine (st : Proc) (ws : List String) : Proc × String :=
+def stepLine (st : Proc × PEnv) (ws : List String) : (Proc × PEnv) × String :=
   match ws with
-  | ["reset"] => (Proc.init, "ready")
+  | ["reset"] => ((Proc.init, []), "ready")
   | "p" :: rest =>
     match parsePOp rest with
     | none => (st, "bad-op")
-    | some op => let (st', r) := st.step op; (st', showProc r st')
-  | _ => (st, stepLine' ws)
+    | some op => let (p', r) := st.1.step op; ((p', st.2), showProc r p')
+  | ["env", "set", k, v] =>
+    match fromHex k, fromHex v with
+    | some k, some v => let (pe, r) := setEnvironmentVariable st.2 k v; ((st.1, pe), s!"e ok={b01 r}")
+    | _, _ => (st, "bad-op")
+  | ["env", "get", k, d] =>
+    match fromHex k, fromHex d with
+    | some k, some d => (st, s!"e val={toHex (getEnvironmentVariable st.2 k d)}")
+    | _, _ => (st, "bad-op")
+  | ["env", "all"] =>
+    -- getEnvironmentVariables(): a Map, i.e. sorted by name
+    (st, "e all=" ++ hexList (prepareEnv (st.2.foldl (fun m kv => mapInsert kv.1 kv.2 m) [])))
+  | _ => (st, stepLine' st.2 ws)
 
 end Nstd.Args
 
-def main : IO Unit := Nstd.Common.ioLoop Nstd.Args.Proc.init Nstd.Args.stepLine
+def main : IO Unit := Nstd.Common.ioLoop (Nstd.Args.Proc.init, []) Nstd.Args.stepLine
